@@ -3,9 +3,9 @@ package props
 import (
 	"fmt"
 	"os"
-	"time"
 	"path/filepath"
 	"sort"
+	"time"
 
 	"github.com/acekingke/yaccgo/verifsim/enga"
 	"github.com/acekingke/yaccgo/verifsim/engb"
@@ -27,17 +27,18 @@ type genUnit struct {
 }
 
 type specCtx struct {
-	Spec   *wl.Spec
-	G      *ref.Grammar
-	LA     *ref.LALR // nil when the LR(1) collection is too large
-	CI     ref.ConflictInfo
-	Auto   *Auto // yaccgo's tables for this grammar under the batch schedule
-	Units  map[string]*genUnit
-	Feeds  []feedInfo
-	Usable bool
+	Spec    *wl.Spec
+	G       *ref.Grammar
+	LA      *ref.LALR // nil when the LR(1) collection is too large
+	CI      ref.ConflictInfo
+	Auto    *Auto // yaccgo's tables for this grammar under the batch schedule
+	Units   map[string]*genUnit
+	Feeds   []feedInfo
+	Usable  bool
+	KnownCF bool // conflict free by construction (Spec.KnownLALR)
 }
 
-func (sc *specCtx) conflictFree() bool { return sc.LA != nil && sc.CI.Cells == 0 }
+func (sc *specCtx) conflictFree() bool { return sc.KnownCF || sc.LA != nil && sc.CI.Cells == 0 }
 
 type feedInfo struct {
 	PanicAt  int // the lexer fails when asked for this token (-1: never)
@@ -92,6 +93,7 @@ func feedStr(s *wl.Spec, toks []ref.Tok) string {
 
 type feedSizes struct {
 	Sentences, MaxLen, Exhaustive, Mutants, Prefixes int
+	NoVeryLong                                       bool // traces of 10^4-token parses are not kept whole (C15, C17)
 }
 
 func sizesFor(ctx *Ctx) feedSizes {
@@ -144,6 +146,22 @@ func makeFeeds(g *ref.Grammar, r *rng.R, sz feedSizes) []feedInfo {
 		}
 		sentences = append(sentences, st)
 		add("sentence", st)
+	}
+	// a few long sentences: deep stacks, many reductions (scale, not shape)
+	for i, budget := range []int{300, 1500} {
+		if sz.Sentences == 0 {
+			break
+		}
+		st := toToks(g.RandomSentence(r.Sub("long", i), budget))
+		if len(st) >= 100 && len(st) <= 6000 {
+			// a sentence by construction (it was derived from the start symbol); Earley on it would be cubic for
+			// ambiguous grammars, so it is not consulted, and no mutants or prefixes are made from it
+			f := feedInfo{Kind: "long-sentence", Toks: st, PanicAt: -1, Sentence: true, BadPos: -1}
+			if !seen[f.String()] {
+				seen[f.String()] = true
+				out = append(out, f)
+			}
+		}
 	}
 	// exhaustive short strings over the used terminals
 	used := s.UsedTerms()
@@ -267,7 +285,9 @@ func prepareBatch(ctx *Ctx, res *Result, in *Input, variants []wl.Variant, epi i
 	for si, s := range in.Specs {
 		sc := &specCtx{Spec: s, G: ref.New(s), Units: map[string]*genUnit{}}
 		sc.Usable, _ = sc.G.Usable()
-		if la, ok := sc.G.BuildLALR(lr1Limit); ok {
+		if s.KnownLALR {
+			sc.KnownCF = true
+		} else if la, ok := sc.G.BuildLALR(lr1Limit); ok {
 			sc.LA = la
 			sc.CI = la.Conflicts(sc.G)
 		}
@@ -283,7 +303,9 @@ func prepareBatch(ctx *Ctx, res *Result, in *Input, variants []wl.Variant, epi i
 			}
 			text := wl.Render(s, wl.RenderOpts{Variant: v, Pkg: name, Epi: epi, Layout: layR})
 			u := &genUnit{SpecIdx: si, Variant: v, Name: name, Text: text}
+			tg := time.Now()
 			o := enga.Run(enga.Case{Text: text, Variant: v, Sched: sched, Mode: "gen"})
+			res.Count("ms_gen_run", int(time.Since(tg).Milliseconds()))
 			logObs(res, o)
 			res.SimTicks += o.Ticks
 			res.Count("generations", 1)
@@ -311,7 +333,36 @@ func prepareBatch(ctx *Ctx, res *Result, in *Input, variants []wl.Variant, epi i
 			sc.Auto = Snapshot(ob.L)
 		}
 		if sz.Sentences > 0 && sc.Usable {
+			tf := time.Now()
 			sc.Feeds = makeFeeds(sc.G, r.Sub("spec", si), sz)
+			res.Count("ms_make_feeds", int(time.Since(tf).Milliseconds()))
+			// scale: one very long sentence and a damaged copy, classified by a reference LR run over the tables of this
+			// generation (Earley is quadratic); only for conflict-free grammars, where table and language coincide
+			if sc.Auto != nil && sc.conflictFree() && (si%3 == 0 || ctx.Thorough()) && !sz.NoVeryLong {
+				rr := r.Sub("verylong", si)
+				syms := sc.G.RandomSentence(rr, 14000)
+				if len(syms) >= 2000 && len(syms) <= 40000 {
+					toks := make([]ref.Tok, len(syms))
+					for i, x := range syms {
+						toks[i] = ref.Tok{Term: x - 2, V: rr.Range(1, 999)}
+					}
+					dam := append([]ref.Tok(nil), toks...)
+					p := len(dam) - 1 - rr.Intn(5)
+					dam[p] = ref.Tok{Term: rr.Intn(len(s.Terms)), V: 1}
+					for _, tk := range [][]ref.Tok{toks, dam} {
+						f := feedInfo{Kind: "very-long", Toks: tk, PanicAt: -1}
+						verdict, shifted := tableVerdict(sc, &f)
+						if verdict == "accept" {
+							f.Sentence, f.BadPos = true, -1
+						} else if verdict == "syntax" {
+							f.Sentence, f.BadPos = false, shifted
+						} else {
+							continue
+						}
+						sc.Feeds = append(sc.Feeds, f)
+					}
+				}
+			}
 		}
 		pb.Specs = append(pb.Specs, sc)
 	}
@@ -468,7 +519,14 @@ func grammarsForParsers(ctx *Ctx, r *rng.R, n int, wantConflictFree bool) []*wl.
 		rr := r.Sub("g", k)
 		var s *wl.Spec
 		shared := false
-		switch rr.Intn(7) {
+		pick := rr.Intn(7)
+		if rr.Chance(1, 40) {
+			pick = 100
+		}
+		switch pick {
+		case 100:
+			// scale: about a thousand parser states, packed vectors of tens of kilobytes of text
+			s = wl.ManyRulesN(rr.Sub("huge"), rr.Range(300, 500))
 		case 0:
 			cl := wl.Classics()
 			s = wl.VaryClassic(cl[rr.Intn(len(cl))], rr.Sub("v"))
@@ -490,12 +548,14 @@ func grammarsForParsers(ctx *Ctx, r *rng.R, n int, wantConflictFree bool) []*wl.
 		if !g.Reachable()[g.Start] {
 			continue
 		}
-		la, ok := g.BuildLALR(lr1Limit)
-		if !ok {
-			continue
-		}
-		if (wantConflictFree || shared) && la.Conflicts(g).Cells > 0 {
-			continue
+		if !s.KnownLALR {
+			la, ok := g.BuildLALR(lr1Limit)
+			if !ok {
+				continue
+			}
+			if (wantConflictFree || shared) && la.Conflicts(g).Cells > 0 {
+				continue
+			}
 		}
 		if shared {
 			wl.DecorateShared(s, rr.Sub("dec"))
@@ -525,4 +585,46 @@ func (sc *specCtx) sortedUnits() []*genUnit {
 		out = append(out, sc.Units[vn])
 	}
 	return out
+}
+
+// tableVerdict runs the reference LR driver over the dense table of this generation: verdict and number of tokens shifted.
+func tableVerdict(sc *specCtx, f *feedInfo) (string, int) {
+	a := sc.Auto
+	yid := map[string]int{}
+	for y, n := range a.SymName {
+		if _, dup := yid[n]; !dup || !a.IsNT[y] {
+			yid[n] = y
+		}
+	}
+	look := func(i int) int {
+		if i >= len(f.Toks) {
+			return 1
+		}
+		t := f.Toks[i]
+		if t.Term < 0 {
+			return 0
+		}
+		return yid[sc.Spec.Terms[t.Term].YName()]
+	}
+	stack := []int{0}
+	pos := 0
+	la := look(0)
+	for steps := 0; steps < 40*len(f.Toks)+10000; steps++ {
+		act := a.GTable[stack[len(stack)-1]][la]
+		switch {
+		case act == a.ErrCode:
+			return "syntax", pos
+		case act == a.AccCode:
+			return "accept", pos
+		case act > 0:
+			stack = append(stack, act)
+			pos++
+			la = look(pos)
+		default:
+			r := -act
+			stack = stack[:len(stack)-len(a.RuleR[r])]
+			stack = append(stack, a.GTable[stack[len(stack)-1]][a.RuleL[r]])
+		}
+	}
+	return "budget", pos
 }
